@@ -372,6 +372,16 @@ Definition cast_out (dt : dtype) (w : wire) : res val :=
   | DList s => do l <- cast_many s None w; Ok (VPyList l)
   end.
 
+(* the cast do_WritePropertyRequest selects: Null special case, array parts, else the datatype *)
+Definition cast_for (dt : dtype) (idx : option Z) (w : wire) : res val :=
+  if wire_is_null w then cast_out (DS (SAtom 0 0 None)) w
+  else match dt, idx with
+       | DArray s _ _, Some i =>
+           if i =? 0 then do e <- cast_atom 2 w; Ok (VS e)
+           else do e <- cast_scalar s w; Ok (VS e)
+       | dt, _ => cast_out dt w
+       end.
+
 (* do_WritePropertyRequest on one object: its new content *)
 Definition write_obj (o : object) (pid : Z) (idx : option Z) (w : wire) : xres object :=
   xdo pr <- obj_read o pid idx;
@@ -379,14 +389,7 @@ Definition write_obj (o : object) (pid : Z) (idx : option Z) (w : wire) : xres o
   match snd pr with
   | VNone => XErr PropErr
   | _ =>
-      xdo value <- lift (
-        if wire_is_null w then cast_out (DS (SAtom 0 0 None)) w
-        else match p_dt p, idx with
-             | DArray s _ _, Some i =>
-                 if i =? 0 then do e <- cast_atom 2 w; Ok (VS e)
-                 else do e <- cast_scalar s w; Ok (VS e)
-             | dt, _ => cast_out dt w
-             end);
+      xdo value <- lift (cast_for (p_dt p) idx w);
       match find_prop o pid with
       | None => XErr PropErr
       | Some (_, cur) => xdo nv <- prop_write p cur idx value; XOk (set_prop o pid nv)
